@@ -273,7 +273,7 @@ class Interp:
                 return c[name]
             if dk in ("Variant", "Struct"):
                 return Enum(e.get("did") or e["n"])
-            if dk in ("Const", "AssocConst"):
+            if dk and (dk.startswith("Const") or dk.startswith("AssocConst")):
                 v = self.dom.const(self, e)
                 if v is None:
                     raise Unrecognised("constant %s" % e["n"])
